@@ -36,6 +36,7 @@ var auxRequired = map[string][]string{
 }
 
 func runC09(c *Ctx, r *Run) {
+	checkSinkAccumulates(c, r, "SINK-1")
 	checkResultsUsed(c, r, "USE-1", 100)
 	r.Rule("ENC-2", "the writers that bind session and party identity (ID, IDSlice, RID, Config, ...) are total on their type")
 	r.Rule("START-S3", "every start closure hands the caller's session identifier itself (its bytes) to round.NewSession")
